@@ -28,10 +28,14 @@ MANIFEST = dict(
           "the sea-level observer lies on the meridian ellipse; rp = a * rho_cosphi (two differently coded formulas); "
           "rm(0) = b^2/a, rm(+-90) = a^2/b, rm monotone in |phi|; linear_velocity = omega * rp; height adds (h/a)(cos phi, sin phi); "
           "distance is symmetric, (0, 0) for coincident points, a*|dlambda| along the equator for |dlambda| < 180 "
-          "(the Andoyer correction terms vanish there); antipodal points: the model (exact reals) divides by zero. "
+          "(the Andoyer correction terms vanish there); antipodal points: the model (exact reals) divides by zero; "
+          "parallax_correction: (alpha', delta') -> (alpha, delta) as distance -> infinity for |delta| < 90 (Filter.Tendsto), "
+          "and two counterexample theorems: declination in (-180,-90) for a body at the pole, topocentric ecliptic latitude in "
+          "(90,180) for every southern latitude at lambda = 0 (the two parallax findings hold of the real-number model too). "
           "The model is tied to /repo by running its binary64 instantiation against the real code bit for bit. "
           "Numerical only (no theorem, (S)+(I)): distance vs the meridian-arc integral (1e-4), distance vs great circle "
-          "(0.6 %, sphere of mean radius, f <= 0.0034), the parallax bound asin(rho sin 8.794''/distance) and its decay."),
+          "(0.6 %, sphere of mean radius, f <= 0.0034), the parallax bound asin(rho sin 8.794''/distance) for both parallax "
+          "functions, the decay for parallax_ecliptical."),
     note=("Trusted: Lean kernel, Mathlib, axioms propext/Classical.choice/Quot.sound; the hand-written model "
           "(lean/templates/Ellipsoid.lean, Kepler.lean for the Angle helpers) and its bit-exact correspondence run; the "
           "idealisation binary64 -> reals; the Simpson quadrature and the vector formula used as oracles. Known findings: "
